@@ -120,3 +120,29 @@ pub fn locate_calls(req: &Value) -> Value {
     }
     json!({"linear": lin, "random": rnd})
 }
+
+/// {src, start, limit} -> tokens of the bare Lexer (no soft-keyword transformer) up to and including the first
+/// error, plus the hook events (one per call of Lexer::next)
+pub fn lex_raw(req: &Value) -> Value {
+    let src = req["src"].as_str().unwrap();
+    let start = TextSize::from(req["start"].as_u64().unwrap_or(0) as u32);
+    let limit = req["limit"].as_u64().unwrap_or(10_000_000) as usize;
+    crate::hooks::start();
+    let mut toks = vec![];
+    let mut err = Value::Null;
+    for r in lexer::Lexer::new(src.chars(), start) {
+        match r {
+            Ok((t, r)) => toks.push(json!([debug_to_json(&format!("{:?}", t)), u32::from(r.start()), u32::from(r.end())])),
+            Err(e) => {
+                err = json!({"kind": debug_to_json(&format!("{:?}", e.error)), "at": u32::from(e.location)});
+                break;
+            }
+        }
+        if toks.len() > limit {
+            err = json!({"kind": "TOKEN_LIMIT"});
+            break;
+        }
+    }
+    let events = if req["events"].as_bool().unwrap_or(false) { crate::hooks::take() } else { crate::hooks::take(); vec![] };
+    json!({"toks": toks, "err": err, "events": events})
+}
